@@ -111,7 +111,9 @@ Inductive mio :=
 | IOEnterHeader (x : hdr) (cp : cproof)
 | IOSM (vrv : option view) (jump : option view)
 | IOGossip (c v n nl : option view)
-| IOEmpty.                           (* nothing was offered *)
+| IOEmpty                            (* nothing was offered to the state machine *)
+| IOGEmpty                           (* nothing was offered to the gossip strategy *)
+| IORestarted.                       (* the mirror process was restarted (consumers start over too) *)
 
 Definition is_restart_x (x : xop) : bool := match x with XOp _ => false | _ => true end.
 
@@ -122,7 +124,7 @@ Definition mstep (s : mstate) (o : mop) : res (mstate * N * mio) :=
       let '(k', r) := kr in
       if is_restart_x x then
         (* a new process: fresh managers, fed by the start-up events *)
-        Ok (mk_ms k' (fold_left mgr_step (st_ev k') mgrs0), r, IONone)
+        Ok (mk_ms k' (fold_left mgr_step (st_ev k') mgrs0), r, IORestarted)
       else
         let evs := skipn (List.length (st_ev (ms_k s))) (st_ev k') in
         Ok (mk_ms k' (fold_left mgr_step evs (ms_m s)), r, IONone))
@@ -150,6 +152,6 @@ Definition mstep (s : mstate) (o : mop) : res (mstate * N * mio) :=
       match g_output (m_g (ms_m s)) with
       | Some (c, v, n, nl) =>
           Ok (mk_ms (ms_k s) (mk_mgrs (m_sm (ms_m s)) (g_mark_sent (m_g (ms_m s))) (m_committed (ms_m s))), 0, IOGossip c v n nl)
-      | None => Ok (s, 0, IOEmpty)
+      | None => Ok (s, 0, IOGEmpty)
       end
   end.
